@@ -34,6 +34,10 @@ func runC01(c *Check, tier string) {
 	ruleR09f(c, "R01j")
 	// a blob is published under its digest only whole (a truncated entry is later restored as if it were the output)
 	shareRule(c, "R01l", "the fs backend publishes an entry only by renaming a fully copied and closed temp file (same obligations as R07a)", 2, "R07a", func(sub *Check) { ruleR07a(sub) }, nil)
+	// incremental = clean rests on the gate, the store path and the restore path as a whole
+	useFamily(c, "R01m", famGate, 8)
+	useFamily(c, "R01n", famStore, 20)
+	useFamily(c, "R01o", famRestore, 20)
 	ruleMemoKeyComplete(c, "R01k", "loading", "hashing", "execution", "output", "dag", "analysis", "selection", "config", "label", "model", "caching", "cmd")
 }
 
